@@ -140,7 +140,7 @@ func (e *Exec) runHeapCross(s *Step) *Violation {
 			}
 		}
 		bSize := B.api.Size()
-		if os.Getenv("VERIF_DEBUG") != "" {
+		if os.Getenv("VERIF_DEBUG") != "" && hookWalk {
 			d := B.api.Dump()
 			stale := 0
 			for _, sl := range d.Slots {
